@@ -247,7 +247,10 @@ def ready_bytes(r):
     tr = r.scn['transport']
     child = r.child
     if tr == 'popen':
-        return b''.join(x for x in list(child._read_queue.queue) if x is not None)
+        q = getattr(child, '_read_queue', None)       # private: if a refactoring moves it, the T=0 clauses are skipped
+        if q is None or not hasattr(q, 'queue'):
+            return None
+        return b''.join(x for x in list(q.queue) if x is not None)
     of = r.k.fds.get(child.child_fd)
     if of is None:
         return b''
@@ -371,6 +374,8 @@ def evaluate(r, scn, ops, recs):
             return out
     if T == 0 and entry not in ('waitnoecho',):
         ready = getattr(r, 'ready_at_entry', b'')
+        if ready is None:
+            return out
         pend = (scn.get('pending') or '').encode('latin-1')
         first = ready[:scn.get('maxread', 2000)]
         if entry != 'rnb':
